@@ -3,6 +3,9 @@
 E1: full products key x compression flag x network x passphrase (plain mode) and passphrase x lot/sequence x
 owner salt x compression x network x seed (EC-multiplied mode), every case compared with the reference BIP38
 implementation (vf/ref/bip38.py), decrypted with the right and with every other passphrase.
+Passphrase text shapes: texts that a lenient converter would not take as text (hex / base58 / decimal looking, blanks,
+case, empty), as str and as UTF-8 bytes, at every entry point that takes a passphrase, each reinterpretation of the
+text used as a wrong passphrase.
 E2/E3: explicit-state search over call sequences of the key-generating API in a fresh interpreter whose
 entropy sources (os.urandom, random._urandom behind SystemRandom) were replaced by a counting deterministic
 source BEFORE bitcoinlib is imported, so entropy frozen into default arguments at import time is visible.
@@ -25,7 +28,13 @@ RULE = ('plain mode: the full product private key {1, top byte zero, n-1, VERIF_
         'mode: passphrase x {no lot, lot+sequence boundaries} x owner salt; intermediate code must equal the '
         'reference; for compression x network x seed the generated key must decrypt under the reference to a '
         'key whose address is the reported one, Key(.., password) must return that key, another passphrase must '
-        'raise. All published vectors. Freshness: breadth-first search over call sequences (length <= 3) of '
+        'raise. Passphrase text shapes: {even/odd number of hex digits, lower/upper case, with blanks, decimal PIN, '
+        'zeros, 64 hex digits, a WIF string, blank-padded text, "0", empty} x passed as {str, UTF-8 bytes} x entry '
+        'point {Key.encrypt, HDKey.encrypt, bip38_encrypt, Key(..), HDKey(..), bip38_decrypt in plain and '
+        'EC-multiplied mode, bip38_intermediate_password without and with lot/sequence}: every result must be the '
+        'reference\'s for the UTF-8 bytes of the text, and every reinterpretation of the text that is another '
+        'passphrase (hex-decoded, base58-decoded, stripped, blanks removed, case swapped, decimal value) must be '
+        'refused. All published vectors. Freshness: breadth-first search over call sequences (length <= 3) of '
         '{bip38_intermediate_password(pw), bip38_create_new_encrypted_wif(code), Key().encrypt(pw), HDKey()} '
         'each executed from a fresh interpreter with counting entropy sources installed before import; states '
         'are canonicalised as the multiset of calls made + equality pattern of their outputs. A case is '
@@ -45,6 +54,14 @@ ASSUMPTIONS = [
     'object has at that moment',
     'in the key-object history sub-space the library\'s own scrypt is memoised per case (a pure function; each '
     'distinct input is still computed by the library\'s scrypt once)',
+    'a passphrase given as bytes is used as it is (the library documents str; bytes are accepted by every entry point '
+    'except bip38_intermediate_password, whose refusal of bytes is not judged); bytes that are not valid UTF-8 are '
+    'used only as WRONG passphrases',
+    'in the passphrase-shape sub-space the library\'s scrypt and the reference\'s scrypt are each memoised per case '
+    '(pure functions): the entry points of one case hand the same passphrase bytes and salt to the KDF when they '
+    'are right',
+    'HDKey(bip38, password) is called with witness_type=\'legacy\' (with the default witness type it compares the '
+    'address hash with a bech32 address and refuses every key - a refusal, not judged)',
     'the published vectors have fixed passphrases (ASCII; the unicode vector of the BIP text is added in decomposed '
     'and NFC form); the other passphrase classes are covered against the reference implementation in plain/ec',
 ]
@@ -77,6 +94,23 @@ def selftest():
             assert forms['NFC'] == pw and forms['NFKC'] != forms['NFC'] and forms['NFKD'] != forms['NFC']
     assert _folded(PWS['compat']) == 'fish and chips \u30e1\u30fc\u30c8\u30eb' and _folded(PWS['ascii']) is None
     assert bip38._norm(PWS['vector']).hex() == 'cf9300f0909080f09f92a9'       # bytes stated in the BIP
+    # passphrase text shapes: all ASCII (one normalisation form), and what a lenient converter makes of each
+    ri = {c: dict(_reinterpretations(t)) for c, t in SHAPES.items()}
+    assert all(t.isascii() and len({unicodedata.normalize(f, t) for f in ('NFC', 'NFD', 'NFKC', 'NFKD')}) == 1
+               for t in SHAPES.values()) and len(set(SHAPES.values())) == len(SHAPES)
+    assert ri['pin'] == {'hex_decoded': b'\x12\x34\x56', 'base58_decoded': codec.b58decode('123456')}
+    assert ri['pin_zeros'] == {'hex_decoded': b'\0\0\0\0', 'decimal_normalised': '0'}
+    assert ri['hex_lower']['hex_decoded'] == b'\xde\xad\xbe\xef' and ri['hex_lower']['case_swapped'] == 'DEADBEEF'
+    assert ri['hex_upper']['hex_decoded'] == b'\xca\xfe' and ri['hex_upper']['case_swapped'] == 'cafe'
+    assert ri['hex_spaced']['hex_decoded'] == b'\xde\xad\xbe\xef' and ri['hex_spaced']['whitespace_removed'] == 'deadbeef'
+    assert 'hex_decoded' not in ri['hex_odd'] and 'hex_decoded' not in ri['wif'] and 'hex_decoded' not in ri['padded']
+    assert len(ri['hex_key']['hex_decoded']) == 32 and len(SHAPES['hex_key']) == 64
+    assert codec.b58check_decode(SHAPES['wif']) is not None and ri['wif']['base58_decoded'][:1] == b'\x80'
+    assert ri['padded']['whitespace_stripped'] == 'Testing One' and ri['padded']['whitespace_removed'] == 'TestingOne'
+    assert ri['zero'] == {} and ri['empty'] == {}
+    assert set(n for r in ri.values() for n in r) == set(REINTERPRETATIONS)
+    for r in ri.values():          # every reinterpretation is a different passphrase for BIP38
+        assert len({_pwbytes(v) for v in r.values()}) == len(r)
     src = _Counting()
     a, b = src.urandom(8), src.urandom(8)
     assert a != b and src.count == 2 and src.nbytes == 16
@@ -359,6 +393,239 @@ def sub_ec(case):
     return {'devs': devs, 'n': n, 'out': outs, 'trans': n, 'traces': 1}
 
 
+# ----------------------------------------------------------------------------- passphrase text shapes
+# A BIP38 passphrase is TEXT: its bytes are the UTF-8 encoding of its NFC form, whatever the text looks like. The
+# classes below are the texts that a lenient converter ("hex string or text", "base58 or text", "number or text",
+# strip / split, case folding, falsy test) would turn into something else. Seed-independent.
+_B58 = '123456789ABCDEFGHJKLMNPQRSTUVWXYZabcdefghijkmnopqrstuvwxyz'
+SHAPES = {
+    'pin': '123456',                    # decimal digits, even count: a hex string, a base58 string, a number
+    'pin_zeros': '00000000',            # hex for four zero bytes, the number 0
+    'hex_lower': 'deadbeef',            # hex (and base58) letters only
+    'hex_upper': 'CAFE',
+    'hex_spaced': 'de ad be ef',        # hex with blanks (bytes.fromhex skips them)
+    'hex_odd': 'abcde',                 # odd number of hex digits: not a hex string
+    'hex_key': hashlib.sha256(b'C15|shape|hex_key').hexdigest(),      # 64 hex digits: looks like a private key
+    'wif': codec.b58check_encode(b'\x80' + hashlib.sha256(b'C15|shape|wif').digest() + b'\x01'),   # looks like a WIF
+    'padded': ' Testing One ',          # leading, inner and trailing blank
+    'zero': '0',                        # a single digit: falsy as a number
+    'empty': '',                        # the empty passphrase (falsy; also the default of Key(.., password=''))
+}
+SHAPE_CLASSES = list(SHAPES)
+REINTERPRETATIONS = ['hex_decoded', 'whitespace_stripped', 'whitespace_removed', 'case_swapped',
+                     'decimal_normalised', 'base58_decoded']
+
+
+def _pwbytes(pw):
+    return pw if isinstance(pw, bytes) else _nfc(pw).encode('utf8')
+
+
+def _reinterpretations(text):
+    """[(name, passphrase)]: what a lenient converter would make of the text - only the results that BIP38 regards
+    as a DIFFERENT passphrase (other bytes than the UTF-8 of the NFC form), each distinct value once."""
+    cand = []
+    try:
+        cand.append(('hex_decoded', bytes.fromhex(text)))
+    except ValueError:
+        pass
+    cand.append(('whitespace_stripped', text.strip()))
+    cand.append(('whitespace_removed', ''.join(text.split())))
+    cand.append(('case_swapped', text.swapcase()))
+    if text.isdigit():
+        cand.append(('decimal_normalised', str(int(text))))
+    if text and all(c in _B58 for c in text):
+        cand.append(('base58_decoded', codec.b58decode(text)))
+    out, seen = [], {_pwbytes(text)}
+    for name, v in cand:
+        if v is None or _pwbytes(v) in seen:
+            continue
+        seen.add(_pwbytes(v))
+        out.append((name, v))
+    return out
+
+
+class _Memo:
+    """Within one case: the library's own scrypt and the reference's scrypt are each computed once per distinct
+    input (pure functions; all call sites of one case use the same passphrase and salt when they are right)."""
+
+    def __enter__(self):
+        import bitcoinlib.keys as K
+        self.K, self.real, self.ref_real = K, K.scrypt_hash, bip38._scrypt
+        lib, ref = {}, {}
+
+        def lib_kdf(password, salt, key_len=64, N=16384, r=8, p=1, buflen=64):
+            key = (password if isinstance(password, str) else bytes(password), bytes(salt), key_len, N, r, p)
+            if key not in lib:
+                lib[key] = self.real(password, salt, key_len, N, r, p)
+            return lib[key]
+
+        def ref_kdf(pw, salt, n, r, p, ln):
+            key = (bytes(pw), bytes(salt), n, r, p, ln)
+            if key not in ref:
+                ref[key] = self.ref_real(pw, salt, n, r, p, ln)
+            return ref[key]
+        K.scrypt_hash = lib_kdf
+        bip38._scrypt = ref_kdf
+        return self
+
+    def __exit__(self, *a):
+        self.K.scrypt_hash = self.real
+        bip38._scrypt = self.ref_real
+
+
+def sub_shape(case):
+    """case = {'shape': label, 'mode': 'plain'|'ec', 'key', 'comp', 'net', 'seed', 'wrong': bool,
+               ec only: 'lot', 'seq', 'salt', 'seedb', 'decrypt': bool}
+    One passphrase text, given as str and as its UTF-8 bytes, at every entry point that takes a passphrase."""
+    with _Memo():
+        return _shape(case)
+
+
+def _shape(case):
+    from bitcoinlib.keys import (Key, HDKey, bip38_encrypt, bip38_decrypt, bip38_intermediate_password,
+                                 bip38_create_new_encrypted_wif)
+    text = SHAPES[case['shape']]
+    comp, net, ec = case['comp'], case['net'], case['mode'] == 'ec'
+    ver = nets.p2pkh_ver(net)
+    forms = [('str', text), ('bytes', _pwbytes(text))]
+    alts = _reinterpretations(text)
+    wrongs = alts if case.get('wrong') else []
+    devs, outs, nt = [], [], []
+    cnt = [0]
+
+    def dev(site, form, cls, **detail):
+        detail.update(shape=case['shape'], passphrase=text, passed_as=form, compressed=comp, network=net)
+        devs.append({'sig': '%s%s|%s' % (site, '|bytes_passphrase' if form == 'bytes' else '', cls), 'detail': detail})
+
+    def ev(site, form):
+        cnt[0] += 1
+        nt.append('%s/%s/%s/%s/%s/%s/%s' % (case['mode'], case['shape'], form, site, 'c' if comp else 'u', net,
+                                            case.get('lot')))
+
+    def as_alt(name):
+        return 'passphrase_%s_instead_of_utf8_text' % name
+
+    def judge_decrypt(site, fn, enc, k, enc_for_alt, refuses_wrong=True):
+        """fn(enc, pw) -> (secret, flag); right passphrase in both forms, then every reinterpretation as wrong one."""
+        for form, pw in forms:
+            r, exc = _call(lambda: fn(enc, pw))
+            ev(site, form)
+            if r is None:
+                cls = 'unexplained'
+                for name, alt in alts:          # does it open what the specification encrypts under a reinterpretation?
+                    ea = enc_for_alt(alt)
+                    ra, _ = _call(lambda: fn(ea[0], pw)) if ea else (None, None)
+                    if ra is not None and ra == ea[1]:
+                        cls = as_alt(name)
+                        break
+                dev(site, form, 'right_passphrase_refused|' + cls, encrypted=enc, exc=exc)
+                outs.append('shape_decrypt_refused')
+            elif r != (k, comp):
+                dev(site, form, 'wrong_key_or_flag', encrypted=enc, got=['%064x' % r[0], r[1]])
+                outs.append('shape_decrypt_wrong')
+            else:
+                outs.append('shape_decrypt_ok')
+        for name, w in (wrongs if refuses_wrong else []):
+            r, exc = _call(lambda: fn(enc, w))
+            ev(site, 'wrong:' + name)
+            if r is not None:
+                dev(site, 'str', 'wrong_passphrase_accepted|%s_form_of_the_passphrase' % name, encrypted=enc,
+                    wrong_passphrase=w.hex() if isinstance(w, bytes) else w, got='%064x' % r[0])
+                outs.append('shape_wrong_accepted')
+            else:
+                outs.append('shape_wrong_refused')
+
+    def kc(cls, **kw):
+        return lambda enc, pw: (lambda o: (o.secret, bool(o.compressed)))(cls(enc, password=pw, network=net, **kw))
+
+    if not ec:
+        k = _sec(case['key'], case['seed'])
+        hexk = '%064x' % k
+        ref_enc = bip38.encrypt(k, comp, text, ver)
+        addr = bip38._addr(secp.pub(k), comp, ver)
+        flag = b'\xe0' if comp else b'\xc0'
+        alt_enc = {}
+
+        def enc_alt(alt):
+            b = _pwbytes(alt)
+            if b not in alt_enc:
+                alt_enc[b] = bip38.encrypt(k, comp, b, ver)
+            return alt_enc[b]
+        enc_sites = [('Key.encrypt', lambda pw: Key(hexk, network=net, compressed=comp).encrypt(pw)),
+                     ('HDKey.encrypt', lambda pw: HDKey(hexk, network=net, compressed=comp).encrypt(pw)),
+                     ('bip38_encrypt()', lambda pw: bip38_encrypt(hexk, addr, pw, flag))]
+        for site, fn in enc_sites:
+            for form, pw in forms:
+                got, exc = _call(lambda: fn(pw))
+                ev(site, form)
+                if got is None:
+                    dev(site, form, 'raises', exc=exc)
+                    outs.append('shape_encrypt_raises')
+                elif got != ref_enc:
+                    cls = 'unexplained'
+                    for name, alt in alts:
+                        if enc_alt(alt) == got:
+                            cls = as_alt(name)
+                            break
+                    dev(site, form, 'differs_from_specification|' + cls, expected=ref_enc, got=got)
+                    outs.append('shape_encrypt_differs')
+                else:
+                    outs.append('shape_encrypt_ok')
+        judge_decrypt('Key(bip38)', kc(Key), ref_enc, k, lambda alt: (enc_alt(alt), (k, comp)))
+        judge_decrypt('HDKey(bip38)', kc(HDKey, witness_type='legacy'), ref_enc, k, lambda alt: (enc_alt(alt), (k, comp)))
+        # the function does not verify the address hash in this mode: only the right passphrase is judged
+        judge_decrypt('bip38_decrypt()', lambda enc, pw: (lambda r: (int.from_bytes(r[0], 'big'), bool(r[2])))(
+            bip38_decrypt(enc, pw, net)), ref_enc, k, lambda alt: (enc_alt(alt), (k, comp)), refuses_wrong=False)
+        return {'devs': devs, 'n': cnt[0], 'out': outs, 'nt': nt, 'trans': cnt[0], 'traces': 1}
+
+    # EC-multiplied mode
+    lot, seq, salt, seedb = case['lot'], case['seq'], bytes.fromhex(case['salt']), bytes.fromhex(case['seedb'])
+    lotcls = 'lot_sequence' if lot is not None else 'no_lot'
+    ref_ip = bip38.intermediate(text, salt, lot, seq)
+    site = 'bip38_intermediate_password'
+    for form, pw in forms:
+        ip, exc = _call(lambda: bip38_intermediate_password(pw, lot, seq, owner_salt=salt))
+        ev(site, form)
+        if ip is None and form == 'bytes':
+            outs.append('shape_intermediate_bytes_refused')     # documented type is str: a refusal is not judged
+        elif ip is None:
+            dev(site, form, 'raises', exc=exc, lot=lot, sequence=seq)
+            outs.append('shape_intermediate_raises')
+        elif ip != ref_ip:
+            cls = 'unexplained'
+            for name, alt in alts:
+                if bip38.intermediate(_pwbytes(alt), salt, lot, seq) == ip:
+                    cls = as_alt(name)
+                    break
+            dev(site, form, 'differs_from_specification|%s|%s' % (lotcls, cls), expected=ref_ip, got=ip)
+            outs.append('shape_intermediate_differs')
+        else:
+            outs.append('shape_intermediate_ok')
+    if not case.get('decrypt'):
+        return {'devs': devs, 'n': cnt[0], 'out': outs, 'nt': nt, 'trans': cnt[0], 'traces': 1}
+
+    def create(passphrase):
+        """(encrypted key made by the library from the REFERENCE intermediate code, (key, flag) the reference
+        decrypts it to) or None"""
+        code = ref_ip if passphrase is None else bip38.intermediate(_pwbytes(passphrase), salt, lot, seq)
+        res, _ = _call(lambda: bip38_create_new_encrypted_wif(code, comp, seedb, net))
+        rd = bip38.decrypt(res['encrypted_wif'], text if passphrase is None else _pwbytes(passphrase), ver) if res else None
+        return (res['encrypted_wif'], rd) if rd else None
+    made = create(None)
+    cnt[0] += 1
+    if made is None or made[1][1] != comp:
+        dev('bip38_create_new_encrypted_wif', 'str', 'not_decryptable_by_specification', lot=lot, sequence=seq)
+        outs.append('shape_create_bad')
+        return {'devs': devs, 'n': cnt[0], 'out': outs, 'nt': nt, 'trans': cnt[0], 'traces': 1}
+    ew, (k, _) = made
+    outs.append('shape_create_ok')
+    judge_decrypt('Key(bip38 ec-multiplied)', kc(Key), ew, k, create)
+    judge_decrypt('HDKey(bip38 ec-multiplied)', kc(HDKey, witness_type='legacy'), ew, k, create)
+    judge_decrypt('bip38_decrypt(ec-multiplied)', lambda enc, pw: (lambda r: (int.from_bytes(r[0], 'big'), bool(r[2])))(
+        bip38_decrypt(enc, pw, net)), ew, k, create)
+    return {'devs': devs, 'n': cnt[0], 'out': outs, 'nt': nt, 'trans': cnt[0], 'traces': 1}
+
+
 # ----------------------------------------------------------------------------- published vectors
 def _vectors():
     with open(os.path.join(os.path.dirname(bip38.__file__), 'vectors', 'bip38_protected_key_tests.json')) as f:
@@ -538,7 +805,8 @@ def worker_init():
     logging.disable(logging.CRITICAL)
 
 
-SUBS = {'plain': sub_plain, 'hist': sub_hist, 'ec': sub_ec, 'vectors': sub_vector, 'fresh': sub_fresh}
+SUBS = {'plain': sub_plain, 'hist': sub_hist, 'ec': sub_ec, 'shape': sub_shape, 'vectors': sub_vector,
+        'fresh': sub_fresh}
 
 
 # ----------------------------------------------------------------------------- enumeration
@@ -621,6 +889,45 @@ def run(ctx):
     ctx.note('bounds_ec', {'passphrase_classes': epws, 'lot_sequence': lots, 'networks': enets, 'seeds': len(seeds),
                            'product': 'ASCII full, other classes one rotating (flag, network)' if q else 'full',
                            'cases': len(flat)})
+    # ---- passphrase text shapes x passphrase type {str, UTF-8 bytes} x every entry point that takes a passphrase.
+    # quick: every shape once in plain mode (key, flag, network in rotation) and in BOTH lot modes of the
+    # EC-multiplied mode (intermediate code; generated key decrypted in one lot mode, in rotation); thorough: full
+    # product with flag x network resp. lot mode x flag x network.
+    skeys = ['one', 'n-1', 'lz-seeded']
+    scases = []
+    for i, sh in enumerate(SHAPE_CLASSES):
+        combos = [(i % 2 == 0, netsl[(i // 2) % len(netsl)])] if q else [(c, n) for c in (True, False) for n in NETS]
+        for j, (comp, net) in enumerate(combos):
+            scases.append({'shape': sh, 'mode': 'plain', 'key': skeys[(i + j) % len(skeys)], 'comp': comp, 'net': net,
+                           'seed': seed, 'wrong': True})
+    for i, sh in enumerate(SHAPE_CLASSES):
+        for li, (lot, seq) in enumerate(lots):
+            full = not q or li == i % len(lots)
+            combos = [((i // 2) % 2 == 0, enets[i % len(enets)])] if q else [(c, n) for c in (True, False)
+                                                                            for n in ('bitcoin', 'litecoin')]
+            for comp, net in combos:
+                scases.append({'shape': sh, 'mode': 'ec', 'comp': comp, 'net': net, 'lot': lot, 'seq': seq,
+                               'salt': salt('shape', 8 if lot is None else 4), 'seedb': seedb('shape'),
+                               'decrypt': full, 'wrong': full})
+    # every reinterpretation occurs: as wrong passphrase in plain mode, in both lot modes of the intermediate code,
+    # and as wrong passphrase of a generated EC-multiplied key
+    for sel in (lambda c: c['mode'] == 'plain', lambda c: c['mode'] == 'ec' and c['lot'] is None,
+                lambda c: c['mode'] == 'ec' and c['lot'] is not None, lambda c: c['mode'] == 'ec' and c['decrypt']):
+        assert set(n for c in scases if sel(c) for n, _ in _reinterpretations(SHAPES[c['shape']])) == set(REINTERPRETATIONS)
+    if want('shape'):
+        # the cases with the most scrypt evaluations first (better packing; the set of cases is the same)
+        ctx.pmap('shape', sorted(scases, key=lambda c: (c['mode'] == 'ec' and not c['decrypt'])), chunk=1)
+    ctx.note('bounds_shape', {'shapes': {c: SHAPES[c] for c in SHAPE_CLASSES}, 'passed_as': ['str', 'utf-8 bytes'],
+                              'reinterpretations_as_wrong_passphrases': REINTERPRETATIONS,
+                              'sites_plain': ['Key.encrypt', 'HDKey.encrypt', 'bip38_encrypt()', 'Key(bip38)',
+                                              'HDKey(bip38)', 'bip38_decrypt()'],
+                              'sites_ec': ['bip38_intermediate_password', 'Key(bip38 ec-multiplied)',
+                                           'HDKey(bip38 ec-multiplied)', 'bip38_decrypt(ec-multiplied)'],
+                              'lot_sequence': lots,
+                              'product': ('plain: one rotating (key, flag, network) per shape; ec: intermediate code in '
+                                          'every lot mode, generated key decrypted in one rotating lot mode') if q
+                              else 'plain: flag x 4 networks; ec: lot modes x flag x 2 networks, all decrypted',
+                              'cases': len(scases)})
     # ---- published vectors
     if want('vectors'):
         ctx.pmap('vectors', list(range(len(_vectors()))), chunk=1)
